@@ -42,6 +42,9 @@ pub trait Flavor: 'static {
     fn send_node(f: &Self::SF) -> NodeSnap;
     fn recv_node(f: &Self::RF) -> NodeSnap;
     fn stream_node(s: &Self::St) -> Option<NodeSnap>;
+    fn debug(c: &Self::Chan) -> String;
+    fn send_node_debug(f: &Self::SF) -> String;
+    fn recv_node_debug(f: &Self::RF) -> String;
     fn senders(_c: &Self::Chan) -> usize {
         1
     }
@@ -57,7 +60,7 @@ pub trait Flavor: 'static {
 /// borrowed channel over any ring buffer
 pub struct Borrowed<M, A>(PhantomData<(M, A)>);
 
-impl<M: RawMutex + 'static, A: RingBuf<Item = Tag> + 'static> Flavor for Borrowed<M, A> {
+impl<M: RawMutex + 'static, A: RingBuf<Item = Tag> + std::fmt::Debug + 'static> Flavor for Borrowed<M, A> {
     const SHARED: bool = false;
     const GROWING: bool = false;
     type Chan = Box<GenericChannel<M, Tag, A>>;
@@ -94,6 +97,15 @@ impl<M: RawMutex + 'static, A: RingBuf<Item = Tag> + 'static> Flavor for Borrowe
     fn snapshot(c: &Self::Chan) -> Snapshot {
         c.verif_snapshot(&tag_of)
     }
+    fn debug(c: &Self::Chan) -> String {
+        c.verif_debug()
+    }
+    fn send_node_debug(f: &Self::SF) -> String {
+        f.verif_node_debug()
+    }
+    fn recv_node_debug(f: &Self::RF) -> String {
+        f.verif_node_debug()
+    }
     fn send_node(f: &Self::SF) -> NodeSnap {
         f.verif_node(&tag_of)
     }
@@ -126,7 +138,7 @@ impl IsGrowing for FixedHeapBuf<Tag> {
     const GROWING: bool = false;
 }
 
-impl<M: RawMutex + 'static, A: RingBuf<Item = Tag> + IsGrowing + 'static> Flavor for SharedF<M, A> {
+impl<M: RawMutex + std::fmt::Debug + 'static, A: RingBuf<Item = Tag> + IsGrowing + std::fmt::Debug + 'static> Flavor for SharedF<M, A> {
     const SHARED: bool = true;
     const GROWING: bool = A::GROWING;
     type Chan = SChan<M, A>;
@@ -166,6 +178,15 @@ impl<M: RawMutex + 'static, A: RingBuf<Item = Tag> + IsGrowing + 'static> Flavor
     fn snapshot(c: &Self::Chan) -> Snapshot {
         c.vref.verif_snapshot(&tag_of)
     }
+    fn debug(c: &Self::Chan) -> String {
+        c.vref.verif_debug()
+    }
+    fn send_node_debug(f: &Self::SF) -> String {
+        f.verif_node_debug()
+    }
+    fn recv_node_debug(f: &Self::RF) -> String {
+        f.verif_node_debug()
+    }
     fn send_node(f: &Self::SF) -> NodeSnap {
         f.verif_node(&tag_of)
     }
@@ -197,8 +218,8 @@ impl<M: RawMutex + 'static, A: RingBuf<Item = Tag> + IsGrowing + 'static> Flavor
     }
 }
 
-pub type ShGrow = SharedF<parking_lot::RawMutex, GrowingHeapBuf<Tag>>;
-pub type ShFix = SharedF<parking_lot::RawMutex, FixedHeapBuf<Tag>>;
+pub type ShGrow = SharedF<harness::PLD, GrowingHeapBuf<Tag>>;
+pub type ShFix = SharedF<harness::PLD, FixedHeapBuf<Tag>>;
 
 #[derive(Clone, Copy, Debug, PartialEq)]
 pub enum Op {
@@ -1048,6 +1069,7 @@ impl<F: Flavor> System for Sys<F> {
                     r.push(structcheck::waker_code(n.waker, GS, i));
                     r.push(snap.queues[1].iter().position(|q| q.addr == n.addr).map_or(200, |p| p as u8));
                     r.push(s.fut.get().is_terminated() as u8);
+                    r.extend(harness::norm(&F::send_node_debug(s.fut.get())));
                     recs.push(r);
                 }
             }
@@ -1078,6 +1100,7 @@ impl<F: Flavor> System for Sys<F> {
                     r.push(structcheck::waker_code(n.waker, GR, i));
                     r.push(snap.queues[0].iter().position(|q| q.addr == n.addr).map_or(200, |p| p as u8));
                     r.push(s.fut.get().is_terminated() as u8);
+                    r.extend(harness::norm(&F::recv_node_debug(s.fut.get())));
                     recs.push(r);
                 }
             }
@@ -1107,6 +1130,7 @@ impl<F: Flavor> System for Sys<F> {
                 }
             }
         }
+        v.extend(harness::norm(&F::debug(self.chan())));
         v
     }
 
